@@ -137,7 +137,7 @@ PROPS["C11"] = {
     "module": "RCE.Props.C11",
     "theorems": ["RCE.Props.C11.ab_eq_negamax", "RCE.Props.C11.ref_root_value_eq", "RCE.Props.C11.ref_root_move_value_eq"],
     "streams": {"quick": [SO_Q, dict(S("search-mateoff", "mateoff", 160, 4), driver="search:0"), dict(S("search-promo", "promo", 1000, 3), driver="search:0")],
-                "thorough": [SO_T, dict(S("search-mateoff", "mateoff", 3200, 5), driver="search:0"), dict(S("search-promo", "promo", 8000, 4), driver="search:0")]},
+                "thorough": [SO_T, dict(S("search-mateoff", "mateoff", 1600, 4), driver="search:0"), dict(S("search-promo", "promo", 6000, 3), driver="search:0")]},
     "eval_key": "cases", "distinct_key": "distinct_cases",
     "rule": SEARCH_RULE + "; for C11: cache neutralised by the hook, no limits; the root score read from info.best_score and the value of the chosen move are compared with a reference "
             "minimax (textbook fail-soft alpha-beta, no ordering heuristics beyond a static capture sort, no cache, no null windows) over the model's game, and for small depths with the "
